@@ -1238,6 +1238,59 @@ func run(c *mon.Ctx) {
 		c.Count("long_sections.driven")
 		driveSCTE35(r.Slack(b))
 	})
+	// ---- getters of one decoded object called from several goroutines at once (they only read it): no panic, no
+	// fatal error of the runtime (an unlocked map filled in on first use ends the process)
+	c.Stream("concurrent-readers-of-decoded-objects", c.N(8, 100), func(i int, r *gen.Rand) {
+		curMut = "concurrent-readers"
+		c.ExternalWait(func() {
+			c.ConcurrentReaders("decoded PMT / PAT / splice_info_section / PES header", c.N(200, 300), r, func(q *gen.Rand) func() string {
+				pm := ref.GenPMT(q, 4+q.Intn(40))
+				pay := append([]byte{0}, pm.Section()...)
+				c.PersistInput("getters of one decoded PMT, PAT, signal and PES header from 8 goroutines", pay)
+				m, _ := psi.NewPMT(pay)
+				pat, _ := psi.NewPAT(seedPAT(q))
+				sg := ref.GenSig(q, true)
+				x, _ := scte35.NewSCTE35(sg.Payload())
+				ph, _ := pes.NewPESHeader(seedPES(q))
+				return func() string {
+					if m != nil {
+						for _, pid := range m.Pids() {
+							_ = m.PIDExists(pid)
+							_ = m.IsPidForStreamWherePresentationLagsEbp(pid)
+						}
+						_ = m.PIDExists(0x1fff)
+						for _, es := range m.ElementaryStreams() {
+							_, _ = es.StreamTypeDescription(), es.MaxBitRate()
+							for _, d := range es.Descriptors() {
+								_, _, _ = d.Format(), d.DecodeIso639LanguageCode(), d.IsDolbyATMOS()
+							}
+						}
+						_, _ = m.VersionNumber(), fmt.Sprint(m)
+					}
+					if pat != nil {
+						_, _ = pat.NumPrograms(), pat.ProgramMap()
+						_, _ = pat.SPTSpmtPID()
+					}
+					if x != nil {
+						_, _, _, _ = x.PTS(), x.Tier(), x.Command(), x.Data()
+						for _, d := range x.Descriptors() {
+							_, _, _, _ = d.TypeID(), d.UPID(), d.Components(), d.MID()
+							_ = d.IsIn()
+							_, _ = d.StreamSwitchSignalId()
+							for _, o := range x.Descriptors() {
+								_, _ = d.CanClose(o), d.Equal(o)
+							}
+						}
+					}
+					if ph != nil {
+						_, _, _, _ = ph.PTS(), ph.DTS(), ph.Data(), ph.StreamId()
+					}
+					return ""
+				}
+			})
+		})
+		c.Count("concurrent_readers.cases")
+	})
 	// ---- the CLI on generated files
 	c.Stream("cli", c.N(60, 3000), func(i int, r *gen.Rand) {
 		s := seedStream(r)
